@@ -120,6 +120,16 @@ CHECKS["C07"] = dict(
     design="5/C07",
 )
 
+CHECKS["C13"] = dict(
+    technique="generated (pattern, source) pairs with matches by construction over geometry-transformed sources; round-trip oracle span <-> node text computed independently from ast byte offsets, and API-coherence relations between finditer/findall/search/match/fullmatch/CLI",
+    text="Patterns derived from nodes of repository examples and a geometry zoo are searched in sources transformed with multi-byte characters before "
+         "the match, missing trailing newline, CRLF/CR, form feeds and unicode separators in literals/comments, indentation; every Match must lie in "
+         "the source, be the exact slice of the complete node text, report the line/column of its start, and the re-like wrappers and the find CLI "
+         "must agree with finditer.",
+    note="Reference spans use Python's own line terminators and UTF-8 byte columns; constant parts of f-strings are outside the domain; the CLI is compared on \\n-terminated files.",
+    design="5/C13",
+)
+
 NOT_YET = {}
 
 
